@@ -30,8 +30,8 @@ TEXTS = [("doc1.txt", "plaintext", "This is teh first zzyzxq document, wich has 
 
 def classify(path, pol):
     path = os.path.normpath(path)
-    if path == pol["userDict"]:
-        return "userDict"
+    if path == pol["userDict"] or path in [r[0] for r in pol.get("retired", [])]:
+        return "userDict"      # (a retired location counts until the moment it was retired: see parse_strace)
     if path == pol["stats"]:
         return "stats"
     fd = pol["fileDictDir"].rstrip("/")
@@ -45,7 +45,7 @@ def classify(path, pol):
         if pre and base.startswith(pre) and base.endswith("%") and "%" not in base[len(pre):-1]:
             return "fileDict"
         return "fileDict" if names is None or base in names else "other"
-    for target in (pol["userDict"], pol["stats"], fd):
+    for target in [pol["userDict"], pol["stats"], fd] + [r[0] for r in pol.get("retired", [])]:
         if target.startswith(path.rstrip("/") + "/"):
             return "ancestor"
     return "other"
@@ -63,6 +63,10 @@ def parse_strace(path, pol, cwd):
         line = line.rstrip("\n")
         m0 = re.match(r"^(\d+)\s+(.*)$", line)
         pid, rest = (m0.group(1), m0.group(2)) if m0 else ("0", line)
+        ts = 0.0
+        mt = re.match(r"^(\d+\.\d+)\s+(.*)$", rest)
+        if mt:
+            ts, rest = float(mt.group(1)), mt.group(2)
         if rest.endswith("<unfinished ...>"):
             pending[pid] = rest[:-len("<unfinished ...>")]
             continue
@@ -88,7 +92,12 @@ def parse_strace(path, pol, cwd):
                 p = os.path.join(cwd, p)
             if p.startswith("/dev/") or p.startswith("/proc/"):
                 continue
-            evs.append({"ev": "Sys", "call": "open_write", "path": p, "pclass": classify(p, pol), "family": "", "kind": "", "addr": "", "port": 0})
+            pc = classify(p, pol)
+            # a location that the client's settings stopped naming (and the server has been told): no longer configured
+            for rp, rt in pol.get("retired", []):
+                if os.path.normpath(p) == rp and ts > rt:
+                    pc = "other"
+            evs.append({"ev": "Sys", "call": "open_write", "path": p, "pclass": pc, "family": "", "kind": "", "addr": "", "port": 0})
         elif call in ("mkdir", "mkdirat"):
             pm = re.search(r'"((?:[^"\\]|\\.)*)"', args)
             p = pm.group(1) if pm else ""
@@ -154,13 +163,13 @@ def run_server(mode, wd, v, pre=False, rnd=None):
     st = os.path.join(wd, f"strace_{mode}.txt")
     ok = False
     if mode == "stdio":
-        p = subprocess.Popen(["strace", "-f", "-o", st, "-e", "trace=" + SYSCALLS, LS_BIN, "--stdio"], stdin=subprocess.PIPE,
+        p = subprocess.Popen(["strace", "-f", "-ttt", "-o", st, "-e", "trace=" + SYSCALLS, LS_BIN, "--stdio"], stdin=subprocess.PIPE,
                              stdout=subprocess.PIPE, stderr=subprocess.DEVNULL, env=env, cwd=home, start_new_session=True)
         c = lspclient.Client(p.stdout, p.stdin, settings)
         try:
             if rnd:
                 import random
-                v.cov.setdefault("random_sessions", []).append(lspclient.random_session(c, docs, random.Random(rnd[1]), rnd[2]))
+                v.cov.setdefault("random_sessions", []).append(lspclient.random_session(c, docs, random.Random(rnd[1]), rnd[2], pol=pol))
             else:
                 lspclient.full_session(c, docs, TEXTS)
             ok = True
@@ -178,7 +187,7 @@ def run_server(mode, wd, v, pre=False, rnd=None):
             probe.close()
         except OSError:
             raise common.ToolError("port 4000 is busy: cannot run the TCP-mode session")
-        p = subprocess.Popen(["strace", "-f", "-o", st, "-e", "trace=" + SYSCALLS, LS_BIN], stdin=subprocess.DEVNULL,
+        p = subprocess.Popen(["strace", "-f", "-ttt", "-o", st, "-e", "trace=" + SYSCALLS, LS_BIN], stdin=subprocess.DEVNULL,
                              stdout=subprocess.PIPE, stderr=subprocess.DEVNULL, env=env, cwd=home, start_new_session=True)
         p.stdout.readline()   # "Listening on ..."
         s = None
@@ -230,7 +239,7 @@ def run_tcp_busy(wd):
         raise common.ToolError("port 4000 is busy: cannot run the busy-port TCP session")
     st = os.path.join(wd, "strace_tcp_busy.txt")
     env = dict(os.environ, HOME=home, XDG_CONFIG_HOME=os.path.join(home, "xdg_config"), XDG_DATA_HOME=os.path.join(home, "xdg_data"))
-    p = subprocess.Popen(["strace", "-f", "-o", st, "-e", "trace=" + SYSCALLS, LS_BIN], stdin=subprocess.DEVNULL,
+    p = subprocess.Popen(["strace", "-f", "-ttt", "-o", st, "-e", "trace=" + SYSCALLS, LS_BIN], stdin=subprocess.DEVNULL,
                          stdout=subprocess.PIPE, stderr=subprocess.DEVNULL, env=env, cwd=home, start_new_session=True)
     try:
         p.wait(timeout=4)
@@ -245,7 +254,7 @@ def run_tcp_busy(wd):
 
 def run_lib(wd, corp):
     st = os.path.join(wd, "strace_lib.txt")
-    p = subprocess.run(["strace", "-f", "-o", st, "-e", "trace=" + SYSCALLS, common.HV, "lintonly", "--corpus", corp, "--docs", "150"],
+    p = subprocess.run(["strace", "-f", "-ttt", "-o", st, "-e", "trace=" + SYSCALLS, common.HV, "lintonly", "--corpus", corp, "--docs", "150"],
                        stdout=subprocess.PIPE, stderr=subprocess.DEVNULL, cwd=wd, timeout=600)
     evs, raw = parse_strace(st, {"userDict": "/nonexistent/a", "fileDictDir": "/nonexistent/b", "stats": "/nonexistent/c"}, wd)
     return [{"ev": "Proc", "mode": "lib"}] + evs + [{"ev": "SessionOk", "ok": p.returncode == 0, "wrote": []}], raw
